@@ -6,7 +6,9 @@ made to fail in turn (ENOSPC and EIO, once and persistently) by the LD_PRELOAD i
 exceptions of the writer subprocess and the resulting tree are compared with the model's
 prediction for the same fault under each close-path variant (Ignored / Checked: exactly one must
 agree everywhere), and with the property's oracle (silent loss, stickiness, bad final file,
-earlier files intact)."""
+earlier files intact).  "Readable" in the silent-loss clause is judged twice: raw h5py of the
+final-named files and a DigitalRFReader pass over the tree (a channel whose data files are whole
+but which a reader cannot open -- no drf_properties.h5 -- has lost its samples)."""
 import os
 import shutil
 from concurrent.futures import ThreadPoolExecutor
@@ -185,7 +187,18 @@ def analyse(res, b, r, preds):
     if gs:
         g = np.concatenate(gs)
         accepted = P.Samples(g, P.vals(g, sp["dtype"]))
-    lost = not accepted.subset_of(readable)
+    lost_raw = not accepted.subset_of(readable)
+    # ... and "readable" means through DigitalRFReader: the data files may all be whole (raw h5py) while the
+    # channel cannot be opened (e.g. no drf_properties.h5 because a fault at construction was ignored)
+    via_reader, reader_err = None, None
+    if init_ok and len(accepted) and not lost_raw:
+        try:
+            _r, via_reader = P.reader_pass(top, sp)
+        except Exception as e:  # noqa
+            via_reader, reader_err = P.Samples(), repr(e)[:300]
+        res.count("reader_passes_on_fault_tree")
+    lost_reader = via_reader is not None and not accepted.subset_of(via_reader)
+    lost = lost_raw or lost_reader
     if first is not None and lost:
         during = first["call"] or "?"
         j = order.index(during) if during in order else None
@@ -195,7 +208,21 @@ def analyse(res, b, r, preds):
             return name in outc and not outc[name]["ok"]
         rep = call_failed(during) or (nxt is not None and nxt != "close" and call_failed(nxt))
         if not rep:
-            if during == "close":
+            observed = {"outcomes": {k: v["ok"] for k, v in outc.items()}, "accepted": accepted.brief(),
+                        "readable_raw_h5py": readable.brief(), "drf_properties.h5": props_state}
+            if lost_reader:
+                observed["readable_through_DigitalRFReader"] = via_reader.brief()
+                observed["reader_error"] = reader_err
+            if lost_reader and during == "init":
+                sig = "init-fault-ignored-channel-unreadable"
+                title = ("an I/O failure on the properties file during writer construction is ignored: the writer is "
+                         "constructed, accepts the writes and reports nothing, but drf_properties.h5 is %s and no accepted "
+                         "sample is readable through DigitalRFReader" % props_state)
+            elif lost_reader:
+                sig = "accepted-samples-unreadable-through-reader"
+                title = ("after an I/O failure nobody reported, accepted samples are in whole data files but are not "
+                         "readable through DigitalRFReader")
+            elif during == "close":
                 sig = "final-close-failure-silent"
                 title = ("an I/O failure while close() finalizes the last file loses accepted samples without any "
                          "error: close() runs in a capsule destructor and cannot report")
@@ -206,9 +233,8 @@ def analyse(res, b, r, preds):
             else:
                 sig = "silent-sample-loss"
                 title = "accepted samples are not readable and no error was reported by the failing or the next call"
-            res.violation(sig, title, inp, "error reported by call %s or %s" % (during, nxt),
-                          {"outcomes": {k: v["ok"] for k, v in outc.items()}, "accepted": accepted.brief(),
-                           "readable": readable.brief()})
+            res.violation(sig, title, inp, "error reported by call %s or %s, or every accepted sample readable"
+                          % (during, nxt), observed)
     # (4) sticky: once a write reported an I/O failure every later write is refused
     if False in wouts:
         k = wouts.index(False)
@@ -271,7 +297,7 @@ def run(res):
     res.rule = ("one case = one single-fault schedule (recording, failing operation number, ENOSPC|EIO, once|persistent) "
                 "run on the real writer under the interposer; all distinct, all non-trivial; compared with the model's "
                 "prediction under both close-path variants and with the property's oracle (bad final file, earlier files "
-                "intact, silent loss, stickiness); quick: every operation of 3 recordings with ENOSPC once, the other "
+                "intact, silent loss -- accepted samples readable from the final files by raw h5py AND through DigitalRFReader --, stickiness); quick: every operation of 3 recordings with ENOSPC once, the other "
                 "errno/persistence combinations sampled (170/170/110 runs; the third recording alternates rf_write and rf_write_blocks); thorough: all combinations, 8 recordings")
     for sp in recordings(res.tier):
         one_recording(res, sp)
@@ -307,5 +333,10 @@ def replay(res, rp):
             except Exception as e:  # noqa
                 line += "  UNREADABLE " + repr(e)[:100]
         print(line)
+    try:
+        _r, seen = P.reader_pass(top, sp)
+        print("DigitalRFReader on the tree reads", seen.brief())
+    except Exception as e:  # noqa
+        print("DigitalRFReader on the tree raises", repr(e)[:300])
     print("expected:", rp.get("expected"), "| observed then:", rp.get("observed"))
     return 0
